@@ -20,12 +20,13 @@ def _profile(**kw):
     return Profile("verif", **kw)
 
 
-def make_major_sol(gene, struct, majors):
+def make_major_sol(gene, struct, majors, added=()):
+    from aldy.gene import Mutation
     from aldy.solutions import CNSolution, MajorSolution, SolvedAllele
 
     cn_sol = CNSolution(gene, 0, list(struct))
     sol = collections.Counter(SolvedAllele(gene, major=a) for a in majors)
-    return MajorSolution(score=0, solution=sol, cn_solution=cn_sol, added=[])
+    return MajorSolution(score=0, solution=sol, cn_solution=cn_sol, added=[Mutation(int(p_), o_) for p_, o_ in added])
 
 
 def present_variants(gene, major, minor):
@@ -66,6 +67,7 @@ def considered(gene, majors):
 def add_witness(rng, gene, struct, bag, table, depth):
     """Rule-sensitivity witnesses: evidence on which one of the rules R3-R5 is binding."""
     t = {p: dict(v) for p, v in table.items()}
+    novel = []
     planted = set().union(*[present_variants(gene, a, mi) for a, mi in bag]) if bag else set()
     M = sorted(considered(gene, [b[0] for b in bag]) - planted)
     kind = rng.choice(["stray", "stray", "sparse", "double", "lost"])
@@ -108,12 +110,18 @@ def add_witness(rng, gene, struct, bag, table, depth):
             x = rng.choice(by[p])
             y = rng.choice([z for z in by[p] if z[2] != x[2]])
             struct, bag = ["1", "1"], [(x[0], x[1]), (y[0], y[1])]
-            if rng.random() < 0.3:
+            r_ = rng.random()
+            if r_ < 0.25:
                 struct, bag = ["1"], [(x[0], x[1])]
+            elif r_ < 0.6 and gene.mutations.get((y[2].pos, y[2].op), (None,))[0] is not None:
+                # only x is called (once or twice); y's variant at the same site is a novel variant of the major call
+                n_ = rng.choice([1, 2])
+                struct, bag = ["1"] * n_, [(x[0], x[1])] * n_
+                novel.append((y[2].pos, y[2].op))
             t = evidence.plant(gene, bag, depth=depth, sites=evidence.catalogue_sites(gene))
-            m = rng.choice([x[2], y[2]])
-            t[p][m.op] = t[p].get(m.op, 0) + depth
-            t[p]["_"] = max(0, t[p].get("_", 0) - rng.choice([0, depth]))
+            m = rng.choice([x[2], y[2]]) if not novel else y[2]
+            t[p][m.op] = t[p].get(m.op, 0) + rng.choice([depth, depth // 2, depth + depth // 2])
+            t[p]["_"] = max(0, t[p].get("_", 0) - rng.choice([0, depth])) + rng.choice([0, 0, depth // 2])
     elif kind == "lost":
         # a definitional variant of a fused allele lies in a region the allele lost, but is supported by reads
         for a, mi in bag:
@@ -123,7 +131,7 @@ def add_witness(rng, gene, struct, bag, table, depth):
                     t.setdefault(m.pos, {})
                     t[m.pos][m.op] = t[m.pos].get(m.op, 0) + depth
                     t[m.pos]["_"] = max(0, t[m.pos].get("_", 0) - depth)
-    return struct, bag, t, kind
+    return struct, bag, t, kind, novel
 
 
 def small_enough(gene, called, table):
@@ -150,6 +158,7 @@ def _cases_task(task):
         depth = rng.choice([10, 20, 20, 30])
         table = evidence.plant(g, bag, depth=depth, sites=sites_all)
         planted = None
+        novel = []
         called = [b[0] for b in bag]
         if mode == "noisy":
             m = rng.random()
@@ -166,7 +175,7 @@ def _cases_task(task):
                 called[cfg] = rng.choice(alt)
                 planted = None
         elif mode == "witness":
-            struct, bag, table, wkind = add_witness(rng, g, struct, bag, table, depth)
+            struct, bag, table, wkind, novel = add_witness(rng, g, struct, bag, table, depth)
             called = [b[0] for b in bag]
         else:
             planted = [present_variants(g, a, mi) for a, mi in bag]
@@ -178,7 +187,7 @@ def _cases_task(task):
             kw = rng.choice([{"minor_add": 0.5}, {"minor_miss": 1.0}, {"minor_add": 2.0}, {"threshold": 0.3}])
         prof = _profile(**kw)
         cov = evidence.make_coverage(g, prof, table, low)
-        msol = make_major_sol(g, struct, called)
+        msol = make_major_sol(g, struct, called, novel)
         raised = ""
         try:
             res = run_minor(g, cov, msol)
@@ -188,7 +197,7 @@ def _cases_task(task):
         enum = mode == "noisy" or (mode == "witness" and small_enough(g, called, table))
         rows.append(project.minor_case(cid, g, cov, msol, res, enumerate_all=enum, planted=planted, raised=raised))
         meta[cid] = {"gene": f"{gname}/{genome}", "struct": struct, "called": called, "bag": bag, "table": table, "low": low,
-                     "params": kw, "mode": mode, "noise_free": planted is not None, "raised": raised, "enumerate": enum,
+                     "params": kw, "mode": mode, "novel": [list(x) for x in novel], "noise_free": planted is not None, "raised": raised, "enumerate": enum,
                      "result": [([(sa.major, sa.minor, [str(x) for x in sa.added], [str(x) for x in sa.missing]) for sa in s.solution], s.score) for s in res]}
     return rows, meta
 
@@ -300,7 +309,7 @@ def replay(path):
     table = {int(p): v for p, v in m["table"].items()}
     low = {int(p): {o: tuple(x) for o, x in v.items()} for p, v in (m.get("low") or {}).items()} or None
     cov = evidence.make_coverage(g, _profile(**m["params"]), table, low)
-    msol = make_major_sol(g, m["struct"], m["called"])
+    msol = make_major_sol(g, m["struct"], m["called"], m.get("novel", []))
     with aldyenv.quiet_stderr():
         res = run_minor(g, cov, msol)
     planted = [present_variants(g, a, mi) for a, mi in m["bag"]] if m["noise_free"] else None
